@@ -25,6 +25,15 @@ check("C16", "TLC model check of Cursor + trace validation of ParseState events 
       "DESIGN.md §4.1, §6 C16")
 
 
+check("C03", "TLC enumeration of WxmlExpr/Literals + replay through compiler and node against tree oracle",
+      "TLC enumerates every tree of spec/WxmlExpr.tla (each operator at each operand position of each operator, "
+      "literals at each operand position, redundant-parenthesis variants), proving print/parse round trip for each, and "
+      "every literal spelling of spec/Literals.tla up to length 4-5; each case is compiled by the real compiler, run "
+      "under the reference runtime for edge-value environments (exhaustive 14^n pool in the thorough tier) and compared "
+      "by Object.is-deep equality with the tree's reference value (node supplies each primitive operator).",
+      "DESIGN.md §4.2, §6 C03")
+
+
 def main():
     props = [json.loads(l) for l in open(os.path.join(HERE, "properties.jsonl"))]
     ids = [p["id"] for p in props]
